@@ -121,6 +121,9 @@ static void gen_with(uint64_t seed, const std::string &prop, Plan &plan, const G
             int snd = dir == 0 ? ct : st, rcv = dir == 0 ? st : ct;
             if (stream) {
                 int64_t chunk = r.chance(0.3) ? (int64_t)len : (int64_t)(1 + r.below(std::min<size_t>(len, 70000)));
+                // under TLS every xcm_send is a record of its own; cut into 1-3 byte segments each record costs tens of deliveries
+                // (and a receiver spinning on the partial record in between): bounded number of records per run
+                if (tls_bearing(tp) && (p["seg_policy"] == 2 || p["seg_policy"] == 4) && (int64_t)len / chunk > 60) chunk = (int64_t)len / 60 + 1;
                 int grp = ++gid;
                 plan.ops.push_back(Op{snd, "ssend", {(int64_t)len, chunk}, "", {}, grp});
                 static const int64_t caps[] = {1, 2, 7, 100, 4096, 65536};
@@ -675,7 +678,7 @@ static void setup(const Plan &plan) {
                 // an injected fault may end the connection before it is accepted; so may a client that has sent what it had and
                 // closed before the (TLS) establishment on this side was complete: the connection is used up either way
                 bool client_gone = false;
-                for (auto &x : xsocks()) if (!x->is_server && !x->parent && (x->closed || x->dying)) client_gone = true;
+                for (auto &x : xsocks()) if (!x->is_server && !x->parent && (x->closed || x->closing || x->dying)) client_gone = true;
                 if (pl->P("variant") || client_gone) { accepted++; G->count("probe.accept_failed_after_client_left"); }
                 continue;
             }
